@@ -133,6 +133,9 @@ func funcNames(p *core.Prog, fns []*ssa.Function) []string {
 
 // field looks up a struct field object by package, type and field name.
 func field(p *core.Prog, pkg, typ, name string) *types.Var {
+	if v := p.LookupField(pkg, typ, name); v != nil {
+		return v
+	}
 	sp := p.ByPath[pkg]
 	if sp == nil {
 		return nil
